@@ -15,10 +15,10 @@ Texts == IF FULL THEN {<<"\"\"">>, <<"\"a\"">>, <<"\"abc\"">>, <<"\"\\u{e9}\"">>
          ELSE {<<"\"\"">>, <<"\"abc\"">>, <<"\"a\\u{1F600}b\"">>, <<"'abc'">>}
 Others == IF FULL THEN {<<"()">>, <<"$?">>, <<"$!">>, <<":a">>, <<"$">>, <<"{", "$", "}">>, <<"(", ":a", "=", "1", ")">>}
           ELSE {<<"()">>, <<":a">>, <<"{", "$", "}">>, <<"(", ":a", "=", "1", ")">>}
-Seqs == IF FULL THEN {<<"(", "1", "2", "3", ")">>, <<"(", "1", ",", ")">>, <<"(", "(", "1", "2", ")", "<>", "(", "3", "4", ")", ")">>, <<"(", "1", "<>", "2", ")">>,
+Seqs == IF FULL THEN {<<"(", ",", ")">>, <<"(", "1", "2", "3", ")">>, <<"(", "1", ",", ")">>, <<"(", "(", "1", "2", ")", "<>", "(", "3", "4", ")", ")">>, <<"(", "1", "<>", "2", ")">>,
                       <<"(", ":a", ".", ":b", ")">>, <<"(", ":a", "=", "1", ":b", "=", "2", ")">>, <<"(", "1", "..", "3", ")">>, <<"(", "3", "..", "1", ")">>,
                       <<"(", "--", "1", "..", "0", ")">>, <<"(", "\"abc\"", "<~", "(", "1", "..", "2", ")", ")">>, <<"(", "(", "1", "2", "3", ")", "<~", "(", "0", "..", "1", ")", ")">>}
-        ELSE {<<"(", "1", "2", "3", ")">>, <<"(", "(", "1", "2", ")", "<>", "(", "3", "4", ")", ")">>, <<"(", ":a", ".", ":b", ")">>, <<"(", "1", "..", "3", ")">>,
+        ELSE {<<"(", ",", ")">>, <<"(", "1", "2", "3", ")">>, <<"(", "(", "1", "2", ")", "<>", "(", "3", "4", ")", ")">>, <<"(", ":a", ".", ":b", ")">>, <<"(", "1", "..", "3", ")">>,
               <<"(", "3", "..", "1", ")">>, <<"(", "(", "1", "2", "3", ")", "<~", "(", "0", "..", "1", ")", ")">>}
 Types == {<<"(", "#", "1", ")">>, <<"(", "#", "\"a\"", ")">>, <<"(", "#", "'a'", ")">>, <<"(", "#", "(", "1", "2", ")", ")">>, <<"(", "#", ":a", ")">>, <<"(", "#", "(", "1", "..", "2", ")", ")">>}
 Lits == Ints \cup Floats \cup Texts \cup Others \cup Seqs
